@@ -1,5 +1,5 @@
 From Coq Require Import Lia.
-From QV Require Import model.Base model.Lang model.Types model.Tir model.Floats model.Ceval model.Literal proofs.CevalProofs proofs.LiteralProofs props.C03.
+From QV Require Import model.Base model.Lang model.Types model.Tir model.Floats model.Ceval model.Literal proofs.CevalProofs proofs.LiteralProofs gen.GenOps model.Builder proofs.OpsTie props.C03.
 Open Scope Z_scope.
 Check (C03_fold_arith : forall op a b, i64 a -> i64 b ->
   match op with BoAdd | BoSub | BoMul | BoDiv | BoRem => True | _ => False end ->
@@ -38,3 +38,15 @@ Check (C03_f5_repaired).
 Check (eq_refl : spec_arith BoDiv (-7) 2 = Some (-3)).
 Check (eq_refl : spec_arith BoRem (-7) 2 = Some (-1)).
 Check (eq_refl : es_single_escape = [(39, 39); (34, 34); (92, 92); (98, 8); (102, 12); (110, 10); (114, 13); (116, 9); (118, 11); (48, 0)]%N).
+Check (C03_operators_lowered_as_in_the_source : (forall o, bop_of o = gen_bop_of o) /\ (forall o, uop_of o = gen_uop_of o)).
+Check (C03_refused_operators : (forall o, gen_bop_of o = None <-> In o [BUShr; BExp; BNullish; BInstanceof; BIn])
+  /\ (forall o, gen_uop_of o = None <-> In o [UTypeof; UVoid; UDelete])).
+Check (C03_lowering_conflates_only_strict_twins : forall o o' b, gen_bop_of o = Some b -> gen_bop_of o' = Some b ->
+  o = o' \/ (In o [BEq; BSEq] /\ In o' [BEq; BSEq]) \/ (In o [BNe; BSNe] /\ In o' [BNe; BSNe])).
+Check (C03_unary_lowering_injective : forall o o' u, gen_uop_of o = Some u -> gen_uop_of o' = Some u -> o = o').
+(* the tokens the printers of the correspondence checks write (vlib/prog.py UOPS / BOPS) are the tokens the source reads, operator by operator *)
+Check (eq_refl : gen_bop_tokens = [("&&", BLAnd); ("||", BLOr); (">>", BShr); (">>>", BUShr); ("<<", BShl); ("&", BAnd); ("^", BXor); ("|", BOr); ("+", BAdd); ("-", BSub);
+  ("*", BMul); ("/", BDiv); ("%", BRem); ("**", BExp); ("==", BEq); ("===", BSEq); ("!=", BNe); ("!==", BSNe); ("<", BLt); ("<=", BLe); (">", BGt); (">=", BGe);
+  ("??", BNullish); ("instanceof", BInstanceof); ("in", BIn)]%string).
+Check (eq_refl : gen_uop_tokens = [("!", UNot); ("~", UBitNot); ("-", UMinus); ("+", UPlus); ("typeof", UTypeof); ("void", UVoid); ("delete", UDelete)]%string).
+Check (tokens_distinct : NoDup (map fst gen_bop_tokens) /\ NoDup (map fst gen_uop_tokens)).
